@@ -1071,6 +1071,9 @@ class ArgumentParser(ParserDeprecations, ActionsContainer, ArgumentLinking, argp
             default_config_file_content = default_config_file.get_content()
             if not default_config_file_content.strip():
                 continue
+            with suppress(*get_loader_exceptions(self.parser_mode)), parser_context(load_value_mode=self.parser_mode):
+                if load_value(default_config_file_content) is None:
+                    continue  # nothing but comments
             with change_to_path_dir(default_config_file), parser_context(parent_parser=self):
                 cfg_file = self._load_config_parser_mode(default_config_file.get_content(), key=key)
                 cfg = self.merge_config(cfg_file, cfg)
